@@ -353,6 +353,12 @@ func (m *collection) mergerNotifyPersister() {
 			prevLowerLevelSnapshot.decRef()
 		}
 
+		// The child stacks must see the same, current lower level.
+		if m.stackDirtyBase.lowerLevelSnapshot != nil {
+			m.refreshChildLLSnapshot(m.stackDirtyBase,
+				m.stackDirtyBase.lowerLevelSnapshot.ss)
+		}
+
 		if m.waitDirtyOutgoingCh != nil {
 			close(m.waitDirtyOutgoingCh)
 		}
